@@ -6,6 +6,11 @@ Streams (model = lean/PV/Model/Imperative.lean through the driver ops `imp-*`):
   reads-writes  get_read_variables / get_written_variables of single statements
   disambiguate  disambiguate_identifiers and disambiguate_and_fuse with filters
   dot           get_dot_dependency_graph: edges parsed from the returned text
+  dot-text      get_dot_dependency_graph with caller-supplied stringifier and hooks: every line
+
+T-gen (extract/imperative.py): the bodies of the five functions and of the statement-class methods
+are re-read from the source on every run (lean/PV/Generated/Imperative.lean) and the model is
+proved to be the table interpreter on that table (lean/PV/Properties/C20Table.lean).
 
 Oracles are written from the property text: distinctness / prefix / renaming / dependency
 remapping checked directly on the returned objects; read and written sets against an independent
@@ -942,6 +947,74 @@ class DotStream(Stream):
 # }}}
 
 
+# {{{ stream: the text of the dot export
+
+class DotTextStream(Stream):
+    """get_dot_dependency_graph with a caller-supplied stringifier and hooks: every line of the
+    returned text against the model's `dotText` (the function the T-gen theorem
+    `dotText_eq_table_current` equates with the regenerated source).  The block of edge lines is
+    compared as a sorted list (its order is the iteration order of Python sets)."""
+    name = "dot-text"
+    PRE = [[], ['node [shape="box"];', 'edge [dir="back"];'], ["a b"]]
+    POST = [[], ["x -> y [style=dashed]"], ["p", "q"]]
+
+    def cases(self, rng, tier):
+        n = 300 if tier == "quick" else 6000
+        g = ExprGen(rng, malformed=0.0, floats=0.0, lists=False, foreign=False, cse=0.0,
+                    extra_nodes=False)
+        yield {"u": "none", "pre": [], "post": [], "stream": []}
+        for i in range(n):
+            yield {"u": ["none", "true", "false"][i % 3], "pre": rng.choice(self.PRE),
+                   "post": rng.choice(self.POST),
+                   "stream": rand_stream(rng, rng.randint(0, 7), g, IDPOOL,
+                                         dangling=0.1 if i % 4 == 0 else 0.0, depth=1)}
+
+    def request(self, pl):
+        return (f"(imp-dot-text {pl['u']} {strs_req(pl['pre'])} {strs_req(pl['post'])} "
+                f"{stream_req(pl['stream'])})")
+
+    def run_impl(self, pl):
+        from pymbolic.imperative.utils import get_dot_dependency_graph
+        u = {"none": None, "true": True, "false": False}[pl["u"]]
+        text = get_dot_dependency_graph(
+            mk_stream(pl["stream"]), use_stmt_ids=u, preamble_hook=lambda: list(pl["pre"]),
+            additional_lines_hook=lambda: list(pl["post"]),
+            statement_stringifier=lambda s: "<" + s.id + ">")
+        lines = text.split("\n")
+        head = 1 + len(pl["pre"]) + 1 + len(pl["stream"])
+        tail = len(lines) - len(pl["post"]) - 1
+        if tail < head:
+            return f"(harness-error dot text has {len(lines)} lines)"
+        return strs_req(lines[:head] + sorted(lines[head:tail]) + lines[tail:])
+
+    def shrink(self, pl):
+        st = pl["stream"]
+        for j in range(len(st)):
+            yield {**pl, "stream": st[:j] + st[j + 1:]}
+        if pl["pre"]:
+            yield {**pl, "pre": []}
+        if pl["post"]:
+            yield {**pl, "post": []}
+
+    def nontrivial_key(self, pl, model, impl):
+        return self.request(pl) if pl["stream"] else None
+
+    def stats(self, pl, mo, io, acc):
+        acc[pl["u"]] = acc.get(pl["u"], 0) + 1
+
+# }}}
+
+
+# {{{ T-gen
+
+def extract(ctx=None):
+    """lean/PV/Generated/Imperative.lean from the live source (extract/imperative.py)"""
+    from extract.imperative import extract_imperative
+    return extract_imperative(ctx)
+
+# }}}
+
+
 # {{{ probes for the recorded findings
 
 def probe_known():
@@ -972,10 +1045,11 @@ def probe_known():
 PROP = Prop(
     id="C20",
     title="Statement-stream utilities keep programs well-formed",
-    lean_targets=["PV.Properties.C20"],
+    lean_targets=["PV.Properties.C20", "PV.Properties.C20Table"],
     theorems=[],
-    streams=[GenStream(), FuseStream(), RWStream(), DisambStream(), DotStream()],
+    streams=[GenStream(), FuseStream(), RWStream(), DisambStream(), DotStream(), DotTextStream()],
     probes=[probe_known],
+    extractors=[extract],
     trusted_base=["Lean 4.33 kernel; axioms propext, Classical.choice, Quot.sound only",
                   "harness serialisation; Python sets/frozensets modelled as duplicate-free lists, "
                   "dicts as association lists",
@@ -986,8 +1060,8 @@ PROP = Prop(
                  "(otherwise KeyError, reproduced by the model)",
                  "dependency graph acyclic for the reduction theorem",
                  "identifiers and ids are ASCII names [A-Za-z_][A-Za-z0-9_]*"],
-    level_text='Lean theorems, unbounded in stream length and generic in the name generator (any generator meeting the freshness contract; the mirrored pytools generator is proved to meet it and never to give up): fusing keeps all ids distinct (also under repeated fusion of already fused streams), keeps the first stream as a prefix, renames the second stream by the returned mapping and remaps every dependency to the renamed id of the same original statement; it fails only with KeyError, exactly when a dependency of the second stream names none of its statements. Reported written sets equal an independent scan; reported read sets are sound and equal the scan exactly when no variable occurs only in a left-hand-side index (counter-example proved). Disambiguation renames exactly the clashing identifiers the code sees that pass the filter, to pairwise distinct fresh names, by one consistent renaming of lhs, rhs and condition, for every set-iteration order, and leaves no shared visible identifier; with the scan-level identifier sets this holds under the same no-lhs-only hypothesis (two counter-examples proved). The fixed-point loop of the dot export computes the transitive closure and terminates; on acyclic graphs the drawn edges are exactly the transitive reduction (covering edges), preserve reachability and are the least such edge set. Tied to the code by correspondence streams (name generator, repeated fusion, read/written sets, disambiguate / disambiguate_and_fuse with filters, dot edges parsed from the text) and independent oracles.',
-    level_note='Trusted: Lean kernel; harness serialisation; Python sets/dicts modelled as duplicate-free lists / association lists; the iteration order of the Python set `id_a & id_b` is a parameter of the model (supplied from the key order of the returned dict, checked to be a permutation of the model\'s own clash set) and the theorems hold for every order. Hypotheses: ids distinct within the first stream (for distinctness) and within the second (for the mapping lookups); acyclic dependency relation for the reduction theorem; no CommonSubexpression with a zero child for the consistent-renaming theorem (C08 finding cse-zero-child-collapses); ASCII names. str() of statements is checked by the oracle only (no printer model).',
+    level_text='Lean theorems, unbounded in stream length and generic in the name generator (any generator meeting the freshness contract; the mirrored pytools generator is proved to meet it and never to give up): fusing keeps all ids distinct (also under repeated fusion of already fused streams), keeps the first stream as a prefix, renames the second stream by the returned mapping and remaps every dependency to the renamed id of the same original statement; it fails only with KeyError, exactly when a dependency of the second stream names none of its statements. Reported written sets equal an independent scan; reported read sets are sound and equal the scan exactly when no variable occurs only in a left-hand-side index (counter-example proved). Disambiguation renames exactly the clashing identifiers the code sees that pass the filter, to pairwise distinct fresh names, by one consistent renaming of lhs, rhs and condition, for every set-iteration order, and leaves no shared visible identifier; with the scan-level identifier sets this holds under the same no-lhs-only hypothesis (two counter-examples proved). The fixed-point loop of the dot export computes the transitive closure and terminates; on acyclic graphs the drawn edges are exactly the transitive reduction (covering edges), preserve reachability and are the least such edge set. Tied to the code (i) by T-gen: the bodies of fuse_statement_streams_with_unique_ids, disambiguate_identifiers, disambiguate_and_fuse, get_all_used_identifiers, get_dot_dependency_graph and of the statement-class methods (with their MROs) are re-read from the source on every run into a small Python (lean/PV/Generated/Imperative.lean), and the hand-written model is proved to be the table interpreter run on that table for all inputs (fuseG/disambiguateG/disambiguateAndFuseG/usedIdentifiers/reads/written/mapExprs/dotText _eq_table_current), so the theorems speak about what the current source says; (ii) by correspondence streams (name generator, repeated fusion, read/written sets, disambiguate / disambiguate_and_fuse with filters, dot edges parsed from the text) and independent oracles.',
+    level_note='Trusted: Lean kernel; harness serialisation; Python sets/dicts modelled as duplicate-free lists / association lists; the iteration order of the Python set `id_a & id_b` is a parameter of the model (supplied from the key order of the returned dict, checked to be a permutation of the model\'s own clash set) and the theorems hold for every order. Hypotheses: ids distinct within the first stream (for distinctness) and within the second (for the mapping lookups); acyclic dependency relation for the reduction theorem; no CommonSubexpression with a zero child for the consistent-renaming theorem (C08 finding cse-zero-child-collapses); ASCII names. str() of statements is checked by the oracle only (no printer model). T-gen: the reader extract/imperative.py and the primitives of the table language (UniqueNameGenerator = the generator parameter, Record.copy, Variable, isinstance, DependencyMapper = deps, SubstitutionMapper = substM, list, formatting of str values) are hand-written; the fusion table theorems assume a generator seeded by a set (proved for the mirrored pytools generator), the dot table theorem is stated for representation-order set iteration and use_stmt_ids in {None, True, False}.',
     technique="Lean 4 proofs about an executable model of the statement utilities (generic in the "
               "name generator) + differential correspondence + independent scans / reachability",
     design_ref="DESIGN.md §4 C20",
